@@ -35,6 +35,8 @@ template <typename T>
 void gmres_single(at::Tensor &solution, int &flag, int &nit, AMENsolveMV<T> &Op, at::Tensor &rhs,  at::Tensor &x0, uint64_t size, uint64_t iters, T threshold){
 
     bool converged = false;
+    // the Krylov space of a size x size system has at most size dimensions
+    if(iters > size) iters = size;
 
     at::Tensor r = rhs - Op.matvec(x0);
 
